@@ -1048,6 +1048,13 @@ static int32 tls13WriteCertificate(ssl_t *ssl, sslBuf_t *out)
                     }
                 }
 #  endif
+#  ifdef USE_ED25519
+                if (c->sigAlgorithm == OID_ED25519_KEY_ALG &&
+                    ssl->sec.keySelect.peerCertSigAlgs[i] == sigalg_ed25519)
+                {
+                    break;
+                }
+#  endif
             }
         }
         if (c == NULL || i == ssl->sec.keySelect.peerCertSigAlgsLen)
